@@ -55,3 +55,4 @@ func FieldVarOf(v ssa.Value) *types.Var {
 
 // MaxFieldStores: a field with more explicit stores gets no claim from Bounds.field (Top).
 const MaxFieldStores = maxStores
+
